@@ -210,7 +210,8 @@ fn check(c: &Case, ctx: &mut Ctx) -> Option<Violation> {
                 ctx.state(m.x);
             }
             ROp::ShadowDef => {
-                for l in ["5 DEF RND(X) = X / 4", "RUN", "5"] {
+                // (the line stays in the program: an edit would forget the function again)
+                for l in ["5 DEF RND(X) = X / 4", "RUN"] {
                     let calls = s.line_and_settle(l, 20);
                     for c in &calls {
                         if let Some(p) = c.panicked() {
